@@ -1,6 +1,8 @@
 import RpmVerif.Driver.Common
 import RpmVerif.Model.AddData
 import RpmVerif.Spec.AddData
+import RpmVerif.Driver.WithFile
+import RpmVerif.Gen.CompressionNames
 /-! Driver for C17. Ops (texts as hex of their bytes, `-` = empty):
   `dest H`                 – `PackageBuilder::with_file(src, FileOptions::new(H))` → `build()` → write → parse;
                              obs `ok <dir> <basename> <path>` (DIRNAMES / BASENAMES / `get_file_paths()` read back,
@@ -15,6 +17,10 @@ import RpmVerif.Spec.AddData
                              exactly when `timestampSetter` does, before the signer is asked) — same failure class, same known finding
   `capsset H`              – `FileOptions::caps(H)` (+ build) and `FileCaps::from_str(H)`: `<ok|err:..|panic> <ok|err>`
   `meta H`                 – every string setter with `H`, then build: `ok | err:.. | panic`
+  `wfile <kind> <perm> <secs> <nanos> <size> <dest> <setters>` – one options chain + `with_file` on a prepared source
+                             (regular / symlink / FIFO / directory / missing; any mode bits; any mtime), see Driver/WithFile.lean
+  `leveld <T|default>`     – `compression(CompressionType::T)` / no `compression()` call at all, then build: `ok <name> <level|->`
+                             as PAYLOADCOMPRESSOR / PAYLOADFLAGS record it | `err` | `panic` (model: the scraped default tables)
 Verdict: a `panic` / `abort` is `fails:timestamp-setter-panic` for `tsset`, `fails:builder-panic` elsewhere;
 a destination without a final file name (`Spec.hasFileNameB`) that is accepted is `fails:unsplittable-accepted`; unknown capability text
 (`cap_bogus`) that is accepted is `fails:unknown-cap-accepted`. The `std::path` ops carry no claim of the
@@ -102,6 +108,35 @@ def handleLevel (ty : String) (l : Int) (impl : String) (nobz : Bool := false) :
         | none => "no-level"
         | some (lo, hi) => if l < lo then "below" else if hi < l then "above" else if l == lo || l == hi then "edge" else "inside"
     answer m verdict ((if nobz then "levelnb:" else "level:") ++ ty ++ ":" ++ region)
+
+/-- the cargo features of the rpm-rs the harness links: its defaults, plus bzip2 unless this is the `nobz` build -/
+def featureEnabled (nobz : Bool) (t : Nat) : Bool :=
+  Gen.cargoDefaultFeatureTypes.contains t || (!nobz && Gen.compressionVariants[t]? == some "Bzip2")
+
+/-- `leveld <type|default>`: `compression(CompressionType::<type>)` resp. no `compression()` call, then build; the observation
+names the compressor and the level the header records (`ok zstd 19`, `ok none -`) -/
+def handleLevelDefault (ty : String) (impl : String) (nobz : Bool) : String :=
+  let tnames := Gen.compressionVariants.map String.toLower
+  let t : Option Nat := if ty == "default" then some (defaultType (featureEnabled nobz))
+    else (let i := tnames.idxOf ty; if i < tnames.length then some i else none)
+  match t with
+  | none => badReq "type"
+  | some t =>
+    let m := match withLevelOfType t with
+      | none => "?"
+      | some (v, l) =>
+        -- a type whose codec is not compiled in is refused (`UnsupportedCompressorType`) whatever the level
+        if t != 0 && !featureEnabled nobz t then "err"
+        else match compressorConstruct (fun _ _ => .ok ()) v l with
+          | .ok _ => "ok " ++ (lowerNames.getD v "?") ++ " " ++ (if (lookup3 Gen.levelArgType v).isSome then toString l else "-")
+          | .err _ => "err" | .panic _ => "panic"
+    let verdict :=
+      if isPanicObs impl then "fails:" ++ clsBuilderPanic
+      -- (that the library's own defaults are levels its own range check accepts is the theorem `default_level_in_range`
+      -- over the scraped table, not a demand of the property: an `err` here is an error, not a panic)
+      else if impl.startsWith "ok" || impl == "err" then "holds"
+      else "fails:malformed"
+    answer m verdict ((if nobz then "leveldnb:" else "leveld:") ++ ty)
 
 def inCore (secs : Int) : Bool := -2199023255552 ≤ secs && secs ≤ 2199023255552
 
@@ -194,6 +229,8 @@ def handle (op : String) (args : List String) (impl : String) : String :=
     match l.toInt? with
     | some n => handleLevel ty n impl (nobz := true)
     | none => badReq "level"
+  | "leveld", [ty] => handleLevelDefault ty impl false
+  | "leveldnb", [ty] => handleLevelDefault ty impl true
   | "tsset", [setter, kind, s, n] =>
     match s.toInt?, n.toNat? with
     | some secs, some nanos => handleTs setter kind secs nanos impl
@@ -206,6 +243,7 @@ def handle (op : String) (args : List String) (impl : String) : String :=
     match bytesOfHex h with
     | some _ => answer "ok" (if isPanicObs impl then "fails:" ++ clsBuilderPanic else "holds") "meta"
     | none => badReq "hex"
+  | "wfile", _ => RpmVerif.Driver.WithFile.handle false args impl
   | "layout", [l] =>
     -- several destinations in one package: `build()` succeeds iff every destination can be split (add_data),
     -- whatever the shape of the tree; never a panic
@@ -217,6 +255,6 @@ def handle (op : String) (args : List String) (impl : String) : String :=
     | none => badReq "hex"
   | _, _ => badReq "op"
 
-def ops : List String := ["layout", "dest", "pcomps", "pparent", "pfilename", "pstrip", "pjoin", "level", "levelnb", "tsset", "capsset", "meta"]
+def ops : List String := ["wfile", "layout", "dest", "pcomps", "pparent", "pfilename", "pstrip", "pjoin", "level", "levelnb", "leveld", "leveldnb", "tsset", "capsset", "meta"]
 
 end RpmVerif.Driver.C17
